@@ -50,9 +50,11 @@ def clean_bytes(rnd, n):
             return b
 
 
-def members(c):
-    """the part of a drv_hdr output line that describes the members (without request counts)"""
-    return c.split(" reads=")[0]
+def members(c, nodata=False):
+    """the part of a drv_hdr output line that describes the members (without request counts; without the first data
+    bytes when lines of the reading and the header-only traversal are compared)"""
+    c = c.split(" reads=")[0]
+    return re.sub(r" d=[0-9a-f-]*", "", c) if nodata else c
 
 
 def run(ctx):
@@ -102,6 +104,43 @@ def run(ctx):
             groups.append(("prefix", ["hdr %s %s" % (k, a.hex()), "hdr %s %s" % (k, full.hex())],
                            "straddle" if straddle else None))
             dist["prefix_len<=64" if n <= 64 else "prefix_long"] += 1
+        # header-only traversal (no data read between headers: the listing path) of archives whose first header is
+        # short -- shorter than, equal to and a little longer than the scan window -- followed by more members
+        shorts = []
+        for hl in list(range(24, 41)) * (1 if ctx.quick else 6):
+            for _ in range(200):
+                lv = rnd.choice([0, 0, 1, 2])
+                f = hdrgen.rfields(rnd, lv=lv)
+                f.pop("area", None)
+                if lv in (0, 1):
+                    f["name"] = bytes(rnd.choice(b"abcdefgh") for _ in range(max(0, hl - (24 if lv == 0 else 27))))
+                else:
+                    f["exts"] = []
+                f["clen"] = rnd.choice([1, 5, 9, 58, 300])
+                if lb.normalise(f) is None:
+                    continue
+                h, d = hdrgen.member(f)
+                if len(h) != hl or sig_positions((h + d)[:7]) != [0]:
+                    continue
+                ms = h + d
+                for _ in range(rnd.choice([1, 2, 3])):
+                    g = hdrgen.rfields(rnd)
+                    if lb.normalise(g) is None:
+                        continue
+                    h2, d2 = hdrgen.member(g)
+                    ms += h2 + d2
+                if len(ms) > len(h) + len(d) and len(sig_positions(ms)) >= 2:
+                    shorts.append(ms + b"\0")
+                    break
+        for a in shorts:
+            groups.append(("short-first-kinds", ["hdr file %s" % a.hex()] + ["hdrs %s %s" % (k, a.hex()) for k in KINDS], None))
+            for n in (range(0, 65) if not ctx.quick else rnd.sample(range(0, 65), 22)):
+                P = clean_bytes(rnd, n)
+                full = P + a
+                if [q for q in sig_positions(full) if q < len(P)] or [q for q in marker_positions(full) if q < len(P)]:
+                    continue
+                groups.append(("short-first-prefix", ["hdrs %s %s" % (k, x.hex()) for k in (rnd.choice(KINDS),) for x in (a, full)], None))
+        dist["short_first_archives"] = len(shorts)
         # prefixes ending in every proper prefix of a signature
         for a in rnd.sample(base, min(len(base), 6)):
             for tail in (b"-", b"-l", b"-lh", b"-lh5", b"zz-lh", b"xx-", b"-pm", b"LHA-SF", b"LhASFX V1.2"):
@@ -151,13 +190,14 @@ def run(ctx):
                     viol.append({"property": PID, "kind": "abnormal", "case": l[:100000], "observed": c[:300], "sig": "crash"})
                 elif c != m:
                     mism.append({"case": l[:3000], "c": c[:500], "model": m[:500]})
-            ref = members(cs[0])
+            nd = tag == "short-first-kinds"
+            ref = members(cs[0], nd)
             if ref.startswith("H "):
                 nontriv += 1
             for l, c in zip(ls[1:], cs[1:]):
-                if members(c) != ref:
+                if members(c, nd) != ref:
                     v = {"property": PID, "kind": "members-differ:" + tag, "case": ls[0][:200000], "case2": l[:600000],
-                         "observed": ref[:400], "observed2": members(c)[:400], "sig": (known or tag)}
+                         "observed": ref[:400], "observed2": members(c, nd)[:400], "sig": (known or tag)}
                     if known == "straddle":
                         v["sig"] = "straddle"
                     viol.append(v)
